@@ -20,7 +20,7 @@ Definition init_fstate (next : Z) : cstate :=
 (** the accepted constructs (see [ctl_ok]): checked on the flat opcode sequence while replaying the
     validator's operand-height computation *)
 Definition blocks_ok (nl : Z) (cx : cctx) (is : list instr) : bool :=
-  lvl nl cx (flatten is) (init_vstate None).
+  syn is && lvl nl cx (flatten is) (init_vstate None).
 
 Lemma inv_init nl next : 0 <= nl <= next -> inv nl (init_fstate next) (init_vstate None).
 Proof.
@@ -49,23 +49,28 @@ Theorem compile_block_correct :
         | RNormal st' l' vs' =>
             vs' = [] /\ exists n M', nsteps art mhost codes n M = SNext M'
                        /\ rel art fidx (map fst (c_consts sF)) nl (c_next sF) cap sF st' l' [] M' /\ frame_eq M M'
-        | RReturn st' _ =>
+        | RReturn st' vs' =>
             exists n M', nsteps art mhost codes n M = SNext M' /\ frame_eq M M' /\ ms_idx M' = fidx
               /\ code_at (build_code (c_out sF ++ rest_code) xH (PositiveMap.empty N)) (ms_pc M') [IReturn]
               /\ Forall2 repr (ms_globals M') (s_globals st') /\ mem_rel art cap (ms_mem M') (s_mem st')
+              /\ match cx_return cx with
+                 | Some _ => exists v vs0, vs' = v :: vs0 /\ repr (reg M' 0) v
+                 | None => True
+                 end
         | RTrap => exists n e, nsteps art mhost codes n M = STrap e
         | RBr _ _ _ _ => False
         | _ => True
         end.
 Proof.
-  intros art mhost cap host m cx is nl next v' sF rest_code Hok Hnl Hc Hn Hcs Hlen codes fidx Hcodes st locals M fuel R.
+  intros art mhost cap host m cx is nl next v' sF rest_code Hok0 Hnl Hc Hn Hcs Hlen codes fidx Hcodes st locals M fuel R.
+  unfold blocks_ok in Hok0. apply andb_true_iff in Hok0. destruct Hok0 as [Hsyn Hok].
   set (F := c_out sF ++ rest_code) in *. set (consts := map fst (c_consts sF)) in *. set (NR := c_next sF) in *.
   set (c := build_code F xH (PositiveMap.empty N)) in *.
   assert (HF : code_at c 0 F) by apply build_code_at.
   unfold flatten_body in Hc. destruct (compile_app_inv _ _ _ _ _ _ _ Hc) as (vf & sf & Hc1 & Hc2).
   pose proof (inv_init nl next Hnl) as I0.
   assert (P1 : pres nl (init_fstate next) sf vf).
-  { eapply (pure_seq nl cx (lsize is) is (le_n _)); eauto. left. reflexivity. }
+  { eapply (pure_seq nl cx (lsize is) is (le_n _) Hsyn); eauto. left. reflexivity. }
   destruct (compile_cons _ _ _ _ _ _ _ Hc2) as (vc & sc & Evc & Ehc & Hcr). cbn in Hcr. inversion Hcr; subst vc sc; clear Hcr.
   assert (Hnr : match c_bp sf with j :: _ => no_res j | [] => True end) by (eapply bp_sub_head_nores; [apply (p_bp _ _ _ _ P1)|exact Logic.I]).
   destruct (op_end nl cx sf vf v' sF (p_inv _ _ _ _ P1) Hnr Evc Ehc) as (j & bp' & E1 & E2 & E3 & E4 & E5 & E6 & E7 & E8 & X3 & Rs & Ic & Huc).
@@ -86,7 +91,7 @@ Proof.
     rewrite map_nth. erewrite nth_error_nth; [|exact Hk]. reflexivity. }
   destruct fuel as [|f]; [cbn; exact I|].
   pose proof (sim_all art mhost codes fidx c consts Hcodes nl NR Hn cap host m cx F HF Hlen f f (le_n _)
-                is (init_fstate next) (init_vstate None) vf sf [(cur_off sf, 0, None)] st locals [] M Hc1 Hok I0 eq_refl
+                is (init_fstate next) (init_vstate None) vf sf [(cur_off sf, 0, None)] st locals [] M Hsyn Hc1 Hok I0 eq_refl
                 (or_introl eq_refl) Mf Lf) as Hsim.
   assert (Hlo : lows [(cur_off sf, 0, None)] (init_fstate next)).
   { constructor; [|constructor]. split; [cbn; lia|]. cbn [fst]. apply (T_range F Hlen sf). exact Mf. }
@@ -96,13 +101,131 @@ Proof.
   { intros st1 l1 M1 R1. exists O, M1. split; [reflexivity|]. split; [apply frame_eq_refl|].
     eapply rel_transfer; [exact R1|rewrite E3, E4; reflexivity|exact E8]. }
   assert (Hrest : forall st1 l1 M1, rel art fidx consts nl NR cap sF st1 l1 [] M1 ->
-            sim_res art mhost codes fidx c consts nl NR cap [] M1 sF (exec_seq host cap m 1 st1 l1 [] [])).
+            sim_res art mhost codes fidx c consts nl NR cap cx [] M1 sF (exec_seq host cap m 1 st1 l1 [] [])).
   { intros st1 l1 M1 R1. cbn. exists O, M1. split; [reflexivity|]. split; [exact R1|apply frame_eq_refl]. }
-  assert (Hab : sim_res art mhost codes fidx c consts nl NR cap [] M sF
+  assert (Hab : sim_res art mhost codes fidx c consts nl NR cap cx [] M sF
                   (match blk (exec_seq host cap m f st locals [] is) with
                    | RNormal s1 l1 st1 => exec_seq host cap m 1 s1 l1 st1 [] | r => r end)).
-  { eapply (sim_after_body art mhost codes fidx c consts nl NR cap host m F); [exact Hsim|exact E3|exact E4|exact E8|exact Hbridge|exact Hrest]. }
+  { eapply (sim_after_body art mhost codes fidx c consts nl NR cap host m cx F); [exact Hsim|exact E3|exact E4|exact E8|exact Hbridge|exact Hrest]. }
   rewrite E_block.
   destruct (exec_seq host cap m f st locals [] is) as [st1 l1 vs1|[|k] st1 l1 vs1| | | |]; cbn in Hab |- *; auto.
   - destruct Hab as (e & n & M' & Ee & _). destruct k; discriminate.
+Qed.
+
+(** * Functions with a result: the value reaches the final [end] by fall-through or by a [br] to the
+    function's own label; it is moved to register 0 (RETURN_VALUE_LOCATION), where the final Return
+    instruction expects it.  Local 0 is overwritten by that move, so only register 0, globals and memory are
+    related at the end. *)
+Definition init_fstate_r (next : Z) : cstate :=
+  {| c_out := []; c_bp := [JUnknown [] (Some (PLocal 0))]; c_stack := []; c_next := next; c_reuse := []; c_consts := []; c_last := None |}.
+Definition blocks_ok_r (nl : Z) (cx : cctx) (t : valtype) (is : list instr) : bool :=
+  syn is && lvl nl cx (flatten_body is) (init_vstate (Some t)).
+
+Lemma inv_init_r nl next t : 0 <= nl <= next -> 0 < next -> inv nl (init_fstate_r next) (init_vstate (Some t)).
+Proof.
+  intros H H1. constructor.
+  - constructor; cbn; auto. intros k v idx Hk. destruct k; discriminate.
+  - constructor; cbn; [intros loc []|intros a b []|constructor].
+  - reflexivity.
+  - cbn. constructor; [|constructor]. repeat split; cbn; auto. left. exists [], (Some (PLocal 0)). repeat split; try discriminate; cbn; lia.
+  - left. reflexivity.
+Qed.
+
+Theorem compile_fn_result_correct :
+  forall (art : artifact) (mhost : nat -> list Z -> option (option Z)) (cap : N)
+         (host : nat -> list val -> option memory -> host_result) (m : module) (cx : cctx)
+         (is : list instr) (t : valtype) (nl next : Z) (v' : vstate) (sF : cstate) (rest_code : list N),
+    blocks_ok_r nl cx t is = true -> 0 <= nl <= next -> 0 < next ->
+    compile_ops cx (flatten_body is) (init_vstate (Some t)) (init_fstate_r next) = Some (v', sF) ->
+    c_next sF < 2147483648 -> Z.of_nat (length (c_consts sF)) < 2147483648 ->
+    Z.of_nat (length (c_out sF ++ rest_code)) < 4294967296 ->
+    forall (codes : list (code_map * list Z)) (fidx : nat),
+      nth_error codes fidx
+        = Some (build_code (c_out sF ++ rest_code) xH (PositiveMap.empty N), map fst (c_consts sF)) ->
+      forall (st : store) (locals : list val) (M : mstate) (fuel : nat),
+        rel art fidx (map fst (c_consts sF)) nl (c_next sF) cap (init_fstate_r next) st locals [] M ->
+        match exec_instr host cap m fuel st locals [] (Block (Some t) is) with
+        | RNormal st' l' vs' =>
+            exists v, vs' = [v] /\ exists n M', nsteps art mhost codes n M = SNext M' /\ frame_eq M M'
+              /\ ms_idx M' = fidx /\ ms_pc M' = cur_off sF
+              /\ Forall2 repr (ms_globals M') (s_globals st') /\ mem_rel art cap (ms_mem M') (s_mem st')
+              /\ repr (reg M' 0) v
+        | RReturn st' vs' =>
+            exists n M', nsteps art mhost codes n M = SNext M' /\ frame_eq M M' /\ ms_idx M' = fidx
+              /\ code_at (build_code (c_out sF ++ rest_code) xH (PositiveMap.empty N)) (ms_pc M') [IReturn]
+              /\ Forall2 repr (ms_globals M') (s_globals st') /\ mem_rel art cap (ms_mem M') (s_mem st')
+              /\ match cx_return cx with
+                 | Some _ => exists v vs0, vs' = v :: vs0 /\ repr (reg M' 0) v
+                 | None => True
+                 end
+        | RTrap => exists n e, nsteps art mhost codes n M = STrap e
+        | RBr _ _ _ _ => False
+        | _ => True
+        end.
+Proof.
+  intros art mhost cap host m cx is t nl next v' sF rest_code Hok0 Hnl Hnx Hc Hn Hcs Hlen codes fidx Hcodes st locals M fuel R.
+  unfold blocks_ok_r in Hok0. apply andb_true_iff in Hok0. destruct Hok0 as [Hsyn Hlv].
+  set (F := c_out sF ++ rest_code) in *. set (consts := map fst (c_consts sF)) in *. set (NR := c_next sF) in *.
+  set (c := build_code F xH (PositiveMap.empty N)) in *.
+  assert (HF : code_at c 0 F) by apply build_code_at.
+  unfold flatten_body in Hc, Hlv. destruct (compile_app_inv _ _ _ _ _ _ _ Hc) as (vf & sf & Hc1 & Hc2).
+  rewrite (lvl_app nl cx _ _ _ _ _ _ Hc1) in Hlv. apply andb_true_iff in Hlv. destruct Hlv as [Hok Hle].
+  pose proof (inv_init_r nl next t Hnl Hnx) as I0.
+  assert (P1 : pres nl (init_fstate_r next) sf vf).
+  { eapply (pure_seq nl cx (lsize is) is (le_n _) Hsyn); eauto. left. reflexivity. }
+  destruct (compile_cons _ _ _ _ _ _ _ Hc2) as (vc & sc & Evc & Ehc & Hcr). cbn in Hcr. inversion Hcr; subst vc sc; clear Hcr.
+  pose proof (p_bp _ _ _ _ P1) as Hb0. cbn [init_fstate_r c_bp] in Hb0.
+  destruct (bp_sub_head_val _ _ _ _ Hb0) as (add & b'' & Ebp & Hb'). inversion Hb'; subst b''. clear Hb'.
+  assert (Cmn : c_bp sF = [] /\ c_next sF = c_next sf /\ c_consts sF = c_consts sf /\ ext sf sF
+                /\ (forall loc, In loc ([] ++ add) -> resolved sF loc (cur_off sF))
+                /\ ((exists p, c_stack sf = [p] /\ pwf nl sf p /\ cur_off sF = cur_off sf + Z.of_nat (length (copy_ret p))
+                      /\ (forall j, (j < length (copy_ret p))%nat -> nth (length (c_out sf) + j) (c_out sF) 0%N = nth j (copy_ret p) 0%N
+                                                                     /\ ~ pending sF (length (c_out sf) + j)))
+                    \/ v_unreach vf <> None)).
+  { destruct (v_unreach vf) as [u|] eqn:Huf.
+    - destruct (op_end_ret_term nl cx sf vf v' sF _ [] (p_inv _ _ _ _ P1) ltac:(rewrite Huf; discriminate) Ebp Evc Ehc) as (E2 & E5 & E6 & X3 & Ecur & Rs).
+      splits; auto. right. discriminate.
+    - rewrite (reach_of_none vf Huf) in Ehc.
+      destruct (op_end_ret nl cx sf vf v' sF _ [] (p_inv _ _ _ _ P1) Huf Ebp Evc Ehc) as (p & Esf & Pp & E2 & E5 & E6 & X3 & Ecur & Rs & Hnth).
+      splits; auto. left. exists p. auto. }
+  destruct Cmn as (E2 & E5 & E6 & X3 & Rs & Hfall).
+  assert (MF : matches F sF).
+  { split; [unfold F; rewrite app_length; lia|]. intros q Hq _. unfold F. rewrite app_nth1 by lia. reflexivity. }
+  assert (Mf : matches F sf) by (eapply matches_ext; eauto).
+  assert (HT : 0 <= cur_off sF < 4294967296) by (apply (T_range F Hlen sF); exact MF).
+  assert (Lf : lenv c sf [(cur_off sF, 0, Some (PLocal 0))]).
+  { unfold lenv. rewrite Ebp. constructor; [|constructor]. left. eexists. split; [reflexivity|]. intros loc Hin _. cbn [fst].
+    apply (target_from_F c F HF sF loc (cur_off sF) (Rs loc Hin) MF HT). }
+  assert (Mo : mono sf sF) by (apply mono_eq; auto).
+  assert (SmF : small NR sF) by (split; [unfold NR; lia|exact Hcs]).
+  assert (CoF : consts_ok consts sF).
+  { intros k v idx Hk. unfold consts. rewrite (nth_indep _ 0 (fst (v, idx))). 2:{ rewrite map_length. apply nth_error_Some. congruence. }
+    rewrite map_nth. erewrite nth_error_nth; [|exact Hk]. reflexivity. }
+  assert (HNR : 0 < NR).
+  { unfold NR. rewrite E5. destruct (p_mono _ _ _ _ P1) as [Hm _]. cbn in Hm. lia. }
+  assert (Hlo : lows [(cur_off sF, 0, Some (PLocal 0))] (init_fstate_r next)).
+  { constructor; [|constructor]. split; [cbn; lia|exact HT]. }
+  destruct fuel as [|f]; [cbn; exact I|].
+  pose proof (sim_all art mhost codes fidx c consts Hcodes nl NR Hn cap host m cx F HF Hlen f f (le_n _)
+                is (init_fstate_r next) (init_vstate (Some t)) vf sf [(cur_off sF, 0, Some (PLocal 0))] st locals [] M Hsyn Hc1 Hok I0 eq_refl
+                (or_introl eq_refl) Mf Lf Hlo (small_of_mono NR sf sF SmF Mo) (consts_ok_of_mono consts sf sF CoF Mo) R) as Hsim.
+  rewrite E_block.
+  destruct (exec_seq host cap m f st locals [] is) as [st1 l1 vs1|[|k] st1 l1 vs1| | | |] eqn:Eex; cbn [sim_res] in Hsim; auto.
+  - destruct Hsim as (n & M1 & Hn1 & R1 & Fq).
+    destruct Hfall as [(p & Esf & Pp & Ecur & Hnth)|Hterm].
+    2:{ exfalso. eapply (term_no_normal nl cap host m cx is (init_fstate_r next) (init_vstate (Some t)) vf sf); eauto. }
+    pose proof (r_stack _ _ _ _ _ _ _ _ _ _ _ R1) as Hst. rewrite Esf in Hst.
+    inversion Hst as [|? v1 ? vs1' Hp1 Hr1]; subst. inversion Hr1; subst. clear Hst Hr1.
+    exists v1. split; [reflexivity|].
+    assert (Hcc : code_at c (cur_off sf) (copy_ret p)).
+    { unfold cur_off. apply (code_from_F2 c F HF sF (length (c_out sf)) (copy_ret p) MF); [|exact Hnth].
+      unfold cur_off in Ecur. lia. }
+    destruct (sim_copy_ret art mhost codes fidx c consts Hcodes nl NR Hn cap F sf p [] st1 l1 v1 [] M1 R1 Esf Pp
+                (i_cwf _ _ _ (p_inv _ _ _ _ P1)) (small_of_mono NR sf sF SmF Mo) HNR Hcc) as (k1 & M2 & Hn2 & Fq2 & W1 & W2 & W3 & W4 & W5).
+    exists (n + k1)%nat, M2. rewrite (nsteps_app _ _ _ _ _ _ _ Hn1).
+    split; [exact Hn2|]. split; [eapply frame_eq_trans; eauto|]. rewrite Ecur. auto.
+  - destruct Hsim as (e & n & M1 & Ee & H0 & Hn1 & Arr & Fq). cbn in Ee. inversion Ee; subst e. unfold arrive in Arr. cbn [fst snd] in Arr.
+    destruct Arr as (v1 & vs0 & -> & W1 & W2 & W3 & W4 & W5).
+    exists v1. split; [reflexivity|]. exists n, M1. split; [exact Hn1|]. split; [exact Fq|]. split; [exact W1|]. split; [exact W2|]. split; [exact W3|]. split; [exact W4|exact W5].
+  - destruct Hsim as (e & n & M' & Ee & _). destruct k; discriminate.
 Qed.
